@@ -114,7 +114,7 @@ fn apply(style: ProgressStyle, b: &Build) -> Result<ProgressStyle, String> {
 fn run_case(seed: u64, idx: u64) -> CaseOut {
     let mut rng = Rng::derive(seed, 14, idx);
     let replay = format!("{seed}:{idx}");
-    let base = rng.pick(&["{spinner} {msg} {bar:12} {pos}/{len}", "{spinner}{wide_bar}", "{bar:7}{spinner}{wide_msg}"]).to_string();
+    let base = rng.pick(&["{spinner} {msg} {bar:12} {pos}/{len}", "{spinner}{wide_bar}", "{bar:7}{spinner}{wide_msg}", "{msg}\n{bar:7} {pos}/{len}{spinner}"]).to_string();
     let n_builds = rng.range(1, 3);
     let builds: Vec<Build> = (0..n_builds).map(|_| gen_build(&mut rng)).collect();
     let mut co = CaseOut::held(fnv1a(format!("{base}{builds:?}").as_bytes()), true);
@@ -154,14 +154,15 @@ fn run_case(seed: u64, idx: u64) -> CaseOut {
     }
     // ---- draws ------------------------------------------------------------------------------------
     let mut draws = 0u64;
-    for width in [1u16, 2, 10, 80] {
+    for width in [0u16, 1, 2, 10, 80] {
         for (len, pos) in [(Some(10u64), 0u64), (Some(10), 5), (Some(10), 10), (Some(10), 15), (None, 3), (Some(0), 0)] {
             let (pb, spy) = new_bar(width, 60000, len);
             let st = style.clone();
             let r = catch_unwind(AssertUnwindSafe(|| {
                 pb.set_style(st);
                 pb.set_position(pos);
-                pb.set_message("msg");
+                // (an empty message makes the first line of the last base template empty)
+                pb.set_message(if pos == 5 { "" } else { "msg" });
                 for _ in 0..3 {
                     pb.tick();
                 }
@@ -220,7 +221,7 @@ fn state_sweep_case(seed: u64, idx: u64) -> CaseOut {
     let clock = std::sync::Arc::new(AtomicU64::new(14_000_000_000));
     crate::world::install_session(&clock);
     let len0 = *rng.pick(&[None, Some(0u64), Some(1), Some(10), Some(1 << 63), Some(u64::MAX - 1), Some(u64::MAX)]);
-    let width = *rng.pick(&[1u16, 7, 80, 300]);
+    let width = *rng.pick(&[0u16, 1, 7, 80, 300]);
     let (pb, _spy) = new_bar(width, 60000, len0);
     let mut history: Vec<String> = Vec::new();
     let mut co = CaseOut::held(0, true);
